@@ -93,10 +93,10 @@ pub(crate) fn any_key(i: usize) -> AKey {
 pub(crate) fn shaped_key(i: usize, present: bool, with_ttl: bool) -> AKey {
     let w: Weight = kani::any();
     kani::assume(w >= 1 && w <= (1i64 << 40));
-    let e = (kani::any::<u64>(), sup::any_nanos());
-    // the expiry's index shard is concrete per key (key i -> shard i % 2); the expiry second is any second congruent to it
+    // expiry of a held TTL key: CONCRETE second (5000 + i, so its index shard i % 2 is concrete for CBMC), symbolic
+    // nanoseconds; the clock, every TTL and every new expiry stay fully symbolic, so all orderings are covered
+    let e = (5000 + i as u64, sup::any_nanos());
     let shard = i % 2;
-    kani::assume(e.0 <= (1u64 << 40) && (e.0 % 2) as usize == shard);
     AKey { e: AEntry { present, value: kani::any(), id: (i + 1) as KeyId, expiry: if with_ttl { Some(e) } else { None }, soft_deleted: if present { kani::any() } else { false } }, weight: w, shard }
 }
 /// world shapes: which pool keys are held and which of them carry a TTL
@@ -664,17 +664,16 @@ fn run_worker_hook(_class: u8) { unsafe { resume_worker(&*W_PTR); } }
 /// once in FIFO order; acknowledgements resolve to the outcome of the in-order execution (Accepted, Accepted,
 /// Accepted); k is absent (a put followed by a delete always leaves the key absent), k2 present; weight and
 /// statistics equal those of the in-order reference run.
-#[kani::proof]
-#[kani::unwind(6)]
-fn c11_unawaited_burst_in_order() {
-    let qcap: usize = if kani::any() { 1 } else { 2 };
+#[kani::proof] #[kani::unwind(6)] fn c11_unawaited_burst_queue_of_1() { unawaited_burst_in_order(1); }
+#[kani::proof] #[kani::unwind(6)] fn c11_unawaited_burst_queue_of_2() { unawaited_burst_in_order(2); }
+fn unawaited_burst_in_order(qcap: usize) {
     mk_empty_world!(w, qcap, 1000);
     any_now();
     let c = &w.cache;
     unsafe { W_PTR = &w as *const World; vs::BLOCK_HOOK = Some(run_worker_hook); crossbeam_channel::SEND_BLOCK_IS_FAILURE = true; }
-    let w1: Weight = kani::any();
-    let w2: Weight = kani::any();
-    kani::assume(w1 >= 1 && w1 <= 500 && w2 >= 1 && w2 <= 500);
+    // concrete weights: the ordering obligations do not depend on them, and a symbolic weight makes CBMC explore the
+    // eviction path of every queued put (admission itself is C06's business)
+    let (w1, w2): (Weight, Weight) = (10, 20);
     let a1 = hold(c.put_with_weight(101, 7, w1));
     let a2 = hold(c.delete(101));
     let a3 = hold(c.put_with_weight(102, 8, w2));
@@ -689,8 +688,7 @@ fn c11_unawaited_burst_in_order() {
     assert!(c.get(&102) == Some(8), "C11: the later put is applied");
     assert!(c.total_weight_used() == w2, "C05: weight equals that of the in-order reference run");
     assert!(w.stats.keys_added() == 2 && w.stats.keys_deleted() == 1 && w.stats.keys_rejected() == 0, "C16: statistics equal those of the in-order reference run");
-    kani::cover!(qcap == 1, "queue of one: sends met a full queue");
-    kani::cover!(qcap == 2, "queue of two");
+    kani::cover!(unsafe { vs::BLOCKING_OPS } > 0 || qcap != 1, "queue of one: sends met a full queue");
     vs::edge_covers();
     core::mem::forget(w);
 }
@@ -701,10 +699,9 @@ fn c11_unawaited_burst_in_order() {
 /// afterwards EVERY write entry point returns Err and every read returns absent / empty; once the worker has
 /// run, the acknowledgement handed out before shutdown is resolved with its real outcome (it was queued ahead
 /// of Shutdown), the cache is empty, and a second shutdown() is a no-op.
-#[kani::proof]
-#[kani::unwind(6)]
-fn c13_shutdown_gate_and_drain() {
-    let qcap: usize = if kani::any() { 1 } else { 2 };
+#[kani::proof] #[kani::unwind(6)] fn c13_shutdown_gate_and_drain_queue_of_1() { shutdown_gate_and_drain(1); }
+#[kani::proof] #[kani::unwind(6)] fn c13_shutdown_gate_and_drain_queue_of_2() { shutdown_gate_and_drain(2); }
+fn shutdown_gate_and_drain(qcap: usize) {
     mk_world!(w, keys, _max, qcap, SHAPE_A);
     any_now();
     let c = &w.cache;
@@ -740,7 +737,7 @@ fn c13_shutdown_gate_and_drain() {
     c.shutdown();
     assert!(cek::vk_queue_len(&c.command_executor) == 0, "C13: a repeated shutdown queues nothing and returns");
     assert!(!apk::vk_keep_running(&c.admission_policy) && !exk::vk_keep_running(&c.ttl_ticker), "C13: consumer and sweeper are told to stop");
-    kani::cover!(qcap == 1, "shutdown command met a full queue");
+    kani::cover!(unsafe { vs::BLOCKING_OPS } > 0 || qcap != 1, "shutdown command met a full queue");
     kani::cover!(api == 12, "last API probed");
     vs::edge_covers();
     core::mem::forget(w);
@@ -812,20 +809,29 @@ fn c13_late_send_races_drain() {
 /// is removed from store, weights and index, its weight released and counted; the key without TTL is untouched.
 #[kani::proof]
 #[kani::unwind(6)]
-fn c10_sweep_end_to_end() { sweep_end_to_end(false); }
+fn c10_sweep_end_to_end() { sweep_end_to_end(false, 5000); }
+#[kani::proof]
+#[kani::unwind(6)]
+fn c10_sweep_end_to_end_later_tick() { sweep_end_to_end(false, 5002); }
+#[kani::proof]
+#[kani::unwind(6)]
+fn c10_sweep_end_to_end_other_shard() { sweep_end_to_end(false, 5001); }
 /// ... with a STALE index entry in the due shard (id 9 is no longer charged: its key was deleted or evicted
 /// earlier, and the same key 103... is held again under a new id): the stale entry is dropped without touching
 /// anything else.
 #[kani::proof]
 #[kani::unwind(6)]
-fn c10_sweep_with_stale_entry() { sweep_end_to_end(true); }
-fn sweep_end_to_end(with_stale: bool) {
+fn c10_sweep_with_stale_entry() { sweep_end_to_end(true, 5002); }
+/// `tick_sec`: the second of the tick is concrete per harness (its shard must be a constant for CBMC); nanoseconds and
+/// every expiry's nanoseconds are symbolic, the stale entry's expiry is fully symbolic
+fn sweep_end_to_end(with_stale: bool, tick_sec: u64) {
     mk_world!(w, keys, _max, 2, SHAPE_A);
     // stale entry: id 9 once belonged to key 102 (held now under id 2, without TTL); its old expiry is in shard 0
     let stale_exp = (kani::any::<u64>(), sup::any_nanos());
     kani::assume(stale_exp.0 <= (1u64 << 40) && stale_exp.0 % 2 == 0);
     if with_stale { exk::vk_index_place(&w.cache.ttl_ticker, 0, 3, 9, sup::time(stale_exp.0, stale_exp.1)); }
-    let now = any_now();
+    let now = (tick_sec, sup::any_nanos());
+    sup::set_now(now.0, now.1);
     let c = &w.cache;
     let used0 = c.total_weight_used();
     exk::vk_run_sweeper(w.sweeper, 1);
@@ -849,10 +855,11 @@ fn sweep_end_to_end(with_stale: bool) {
         kani::cover!(removed == 1 && stale_due, "a live key and a stale entry swept in the same tick");
         kani::cover!(removed == 0 && stale_due, "only the stale entry was due: nothing else changes");
     } else {
-        kani::cover!(removed == 1, "the TTL key was swept");
-        kani::cover!(removed == 0 && keys[0].shard == cur, "shard due but key not expired");
-        kani::cover!(keys[0].e.expiry == Some(now), "tick exactly at the expiry instant");
-        kani::cover!(removed == 1 && keys[0].e.soft_deleted, "soft-deleted key swept");
+        kani::cover!(removed == 1 || tick_sec != 5002, "the TTL key was swept");
+        kani::cover!((removed == 0 && keys[0].shard == cur) || tick_sec != 5000, "shard due but key not expired");
+        kani::cover!(keys[0].e.expiry == Some(now) || tick_sec != 5000, "tick exactly at the expiry instant");
+        kani::cover!((removed == 1 && keys[0].e.soft_deleted) || tick_sec != 5002, "soft-deleted key swept");
+        kani::cover!((removed == 0 && keys[0].shard != cur) || tick_sec != 5001, "expired key in the other shard waits for its shard's tick");
     }
     vs::edge_covers();
     core::mem::forget(w);
